@@ -234,23 +234,25 @@ func (rt *RateTotal) Matches(rt2 *RateTotal) bool {
 	if rt.Ext.Equals(rt2.Ext) {
 		if rt.Country == rt2.Country {
 			if rt.Percent == nil && rt2.Percent == nil {
-				return true
+				return rt.surchargeMatches(rt2)
 			}
 			if rt.Percent != nil && rt2.Percent != nil {
 				if rt.Percent.Equals(*rt2.Percent) {
-					if rt.Surcharge == nil && rt2.Surcharge == nil {
-						return true
-					}
-					if rt.Surcharge != nil && rt2.Surcharge != nil {
-						if rt.Surcharge.Percent.Equals(rt2.Surcharge.Percent) {
-							return true
-						}
-					}
+					return rt.surchargeMatches(rt2)
 				}
 			}
 		}
 	}
 	return false
+}
+
+// surchargeMatches is true when both rates have no surcharge, or both have
+// one with the same percentage.
+func (rt *RateTotal) surchargeMatches(rt2 *RateTotal) bool {
+	if rt.Surcharge == nil || rt2.Surcharge == nil {
+		return rt.Surcharge == nil && rt2.Surcharge == nil
+	}
+	return rt.Surcharge.Percent.Equals(rt2.Surcharge.Percent)
 }
 
 // Clone creates a new total with the same values as the original, but in an
